@@ -18,6 +18,8 @@ INVARIANT InvMul
 INVARIANT InvDiv
 INVARIANT InvRound
 INVARIANT InvConstruct
+INVARIANT InvSet
+INVARIANT InvAngleSet
 INVARIANT InvWraps
 INVARIANT InvAngleContains
 INVARIANT InvAngleContainsInterval
